@@ -100,3 +100,5 @@ def run(ctx):
         got = sorted((T.kwargs_of(c).get('c', T.NONE)[1], T.kwargs_of(c).get('b', T.NONE)[1]) for c in calls)
         ctx.equal('SHA3 capacities', got, sorted((2 * s, 1600) for s in (224, 256, 384, 512)), ctx.where(SHA, 'SHA3.__init__'), 'capacity = 2 x digest size, b = 1600')
     ctx.guard('SHA3 capacities', caps)
+
+    dependencies(ctx, ['crysp/bits.py', 'crysp/keccak.py', 'crysp/sha.py'], 'C04')
